@@ -231,45 +231,42 @@ def r3_concatenation(ctx) -> None:
     r, prog = ctx.r, ctx.prog
     r.rule("C14.R3", "'+' builds a new pipeline whose items, postprocessing_items and finalizers are self.X + other.X and whose vars are {**self.vars, **other.vars} (later wins); None and 0 are identities")
     f = prog.func(PP + ".__add__")
-    rets = [x for x in walk_no_nested(f.node) if isinstance(x, ast.Return)]
-    built = [x for x in rets if isinstance(x.value, ast.Call) and call_name(x.value) in ("self.__class__", "ProcessingPipeline", "type(self)", "cls")]
-    if len(built) != 1:
-        raise AnalysisError(f"{f.qual}: constructor return not found")
-    call = built[0].value
-    kws = {kw.arg: kw.value for kw in call.keywords}  # type: ignore[union-attr]
-    names = ["items", "postprocessing_items", "finalizers", "vars"]
-    for i, a in enumerate(call.args):  # type: ignore[union-attr]
-        kws.setdefault(names[i], a)
-    loc = f"{f.module.relpath}:{built[0].lineno}"
+    # '+' interpreted (sa.tabulate, Proxy) on two stand-in pipelines (shared with C14.R5 / C15.R5)
+    from .standins import pipeline_sum_outcome
+    o = pipeline_sum_outcome(ctx)
+    loc = f.loc
+    if o.raised is not None or o.built is None:
+        raise AnalysisError(f"{f.qual}: the sum of two stand-in pipelines gives {o.raised or o.result!r}: constructor call not found")
+    kws = o.built
     for fld in ("items", "postprocessing_items", "finalizers"):
-        v = kws.get(fld)
-        vt = unparse(v).replace(" ", "") if v is not None else None
-        if vt in (f"self.{fld}+other.{fld}", f"[*self.{fld},*other.{fld}]"):
+        want = o.left.attrs()[fld] + o.right.attrs()[fld]
+        got = kws.get(fld)
+        if isinstance(got, list) and len(got) == len(want) and all(a is b for a, b in zip(got, want)):
             r.ok("C14.R3", f.qual, f"{fld} = self.{fld} + other.{fld}", loc)
         else:
-            r.violation("C14.R3", f.qual, f"{fld}={unparse(v) if v is not None else None}", f"{fld} of the sum is not the left operand's {fld} followed by the right operand's", loc)
+            r.violation("C14.R3", f.qual, f"{fld}={got!r}", f"{fld} of the sum is not the left operand's {fld} followed by the right operand's", loc)
     v = kws.get("vars")
-    vt = unparse(v).replace(" ", "") if v is not None else None
-    if vt in ("{**self.vars,**other.vars}", "self.vars|other.vars", "dict(self.vars,**other.vars)"):
-        r.ok("C14.R3", f.qual, f"vars = {unparse(v)} (fresh dict, later wins)", loc)
+    if v == {"x": 1, "y": 2, "z": 2} and v is not o.left.attrs()["vars"] and v is not o.right.attrs()["vars"]:
+        r.ok("C14.R3", f.qual, "vars = {**self.vars, **other.vars} (fresh dict, later wins)", loc)
     else:
-        r.violation("C14.R3", f.qual, f"vars={unparse(v) if v is not None else None}",
+        r.violation("C14.R3", f.qual, f"vars={v!r}",
                     "vars of the sum are not a fresh merge in which the right operand overrides the left (a dict shared with or updated inside an operand makes later sums see variables of pipelines that are not part of them)", loc)
-    extra = set(kws) - set(names)
+    extra = set(kws) - {"items", "postprocessing_items", "finalizers", "vars"}
     if extra:
         r.violation("C14.R3", f.qual, f"extra constructor arguments {sorted(extra)}", "the sum carries fields beyond the concatenated lists and merged vars", loc)
-    ident = [x for x in rets if unparse(x.value) == "self"]
-    okn = any(("other is None", True) in atomic_guards(guards_at(prog, f, x)) for x in ident)
-    if okn:
+    if o.none_result is True:
         r.ok("C14.R3", f.qual, "p + None == p", f.loc)
     else:
-        r.violation("C14.R3", f.qual, "if other is None: return self", "None is no longer the right identity of '+' (a backend without user pipeline fails or drops items)", f.loc)
-    ra = prog.func(PP + ".__radd__")
-    rr = [x for x in walk_no_nested(ra.node) if isinstance(x, ast.Return) and unparse(x.value) == "self"]
-    if rr and ("other == 0", True) in atomic_guards(guards_at(prog, ra, rr[0])):
-        r.ok("C14.R3", ra.qual, "0 + p == p (sum() start value)", ra.loc)
+        r.violation("C14.R3", f.qual, f"if other is None: return self — p + None gives {o.none_result!r}", "None is no longer the right identity of '+' (a backend without user pipeline fails or drops items)", f.loc)
+    if "TypeError" in str(o.bad_type):
+        r.ok("C14.R3", f.qual, "p + <something else> raises TypeError", f.loc)
     else:
-        r.violation("C14.R3", ra.qual, "if other == 0: return self", "0 is no longer the left identity (sum() over pipelines breaks)", ra.loc)
+        r.violation("C14.R3", f.qual, f"p + 5: {o.bad_type}", "only pipelines (and None) can be added", f.loc)
+    ra = prog.func(PP + ".__radd__")
+    if o.radd0 is True and o.radd5 is NotImplemented:
+        r.ok("C14.R3", ra.qual, "0 + p == p (sum() start value); anything else is not implemented", ra.loc)
+    else:
+        r.violation("C14.R3", ra.qual, f"if other == 0: return self — 0 + p is p: {o.radd0!r}, 5 + p gives {o.radd5!r}", "0 is no longer the left identity (sum() over pipelines breaks)", ra.loc)
     r.floor("C14.R3", 6)
 
 
@@ -460,31 +457,26 @@ def _r4_which_pipelines(ctx, f: FuncInfo) -> None:
 def r5_operands_not_consumed(ctx, rid: str = "C14.R5", skip_clear: bool = False) -> None:
     r, prog = ctx.r, ctx.prog
     r.rule(rid, "binary operators do not write to their operands and do not put operand-owned mutable objects into the result without copying")
-    for fn in (PP + ".__add__", PP + ".__radd__"):
-        f = prog.func(fn)
-        operands = [p for p in f.params()]
-        for n in walk_no_nested(f.node):
-            loc = f"{f.module.relpath}:{getattr(n, 'lineno', f.node.lineno)}"
-            if isinstance(n, ast.Call) and isinstance(n.func, ast.Attribute):
-                recv = unparse(n.func.value)
-                root = recv.split(".")[0].split("[")[0]
-                if n.func.attr in ("update", "append", "extend", "clear", "pop", "insert", "remove", "setdefault", "sort", "reverse") and root in operands:
-                    r.violation(rid, f.qual, short(n, 100), f"'+' mutates its operand ({recv}): resolving or adding the same pipeline object again sees the leftovers of the previous sum", loc)
-                elif n.func.attr == "_clear_pipeline" and root in operands and not skip_clear:
-                    r.violation(rid, f.qual, short(n, 80),
-                                f"'+' strips {recv} of the ownership of its items and moves the item objects into the sum: an operand that is used again afterwards "
-                                f"(a pipeline resolved twice, the class-level backend pipeline, one pipeline given to two backends) runs items whose state back-pointer belongs to the last sum built", loc)
-            if isinstance(n, (ast.Assign, ast.AugAssign)):
-                tgts = n.targets if isinstance(n, ast.Assign) else [n.target]
-                for t in tgts:
-                    if isinstance(t, (ast.Attribute, ast.Subscript)) and unparse(t).split(".")[0].split("[")[0] in operands:
-                        r.violation(rid, f.qual, unparse(n)[:120], "'+' assigns into its operand", loc)
-                if isinstance(n, ast.Assign) and isinstance(n.value, ast.Attribute) and unparse(n.value).split(".")[0] in operands and unparse(n.value).endswith((".vars", ".items", ".finalizers", ".postprocessing_items", ".state")):
-                    # alias of an operand's container bound to a local that is later mutated / passed on
-                    nm = unparse(n.targets[0])
-                    uses = [x for x in walk_no_nested(f.node) if isinstance(x, ast.Call) and isinstance(x.func, ast.Attribute) and unparse(x.func.value) == nm and x.func.attr in ("update", "append", "extend", "setdefault", "pop", "clear")]
-                    passed = [x for x in walk_no_nested(f.node) if isinstance(x, ast.keyword) and unparse(x.value) == nm]
-                    if uses or passed:
-                        r.violation(rid, f.qual, unparse(n), f"local {nm} aliases the operand's container and is then mutated / placed into the result", loc)
-        r.ok(rid, f.qual, "operator body examined for writes to / aliasing of operands", f.loc)
+    from .standins import pipeline_sum_outcome
+    o = pipeline_sum_outcome(ctx)
+    f = prog.func(PP + ".__add__")
+    if o.operands_changed:
+        r.violation(rid, f.qual, f"'+' changes {o.operands_changed}", "'+' mutates / assigns into its operand: resolving or adding the same pipeline object again sees the leftovers of the previous sum", f.loc)
+    else:
+        r.ok(rid, f.qual, "the lists and vars of both operands are unchanged after the sum (interpreted)", f.loc)
+    aliased = [k for k in ("items", "postprocessing_items", "finalizers", "vars") if o.built and any(o.built.get(k) is p.attrs().get(k) for p in (o.left, o.right))]
+    if aliased:
+        r.violation(rid, f.qual, f"the sum holds the operand's own {aliased}", "an operand-owned mutable object is placed into the result without copying", f.loc)
+    else:
+        r.ok(rid, f.qual, "the sum holds new list/dict objects", f.loc)
+    if not skip_clear:
+        for side, recv in (("left", "self"), ("right", "other")):
+            if o.released[side]:
+                r.violation(rid, f.qual, f"{recv}._clear_pipeline()",
+                            f"'+' strips {recv} of the ownership of its items and moves the item objects into the sum: an operand that is used again afterwards "
+                            f"(a pipeline resolved twice, the class-level backend pipeline, one pipeline given to two backends) runs items whose state back-pointer belongs to the last sum built", f.loc)
+            else:
+                r.ok(rid, f.qual, f"the items of the {side} operand keep their owner", f.loc)
     r.floor(rid, 2)
+
+
